@@ -56,6 +56,22 @@ def _single_listcomp(node, what):
 
 # ---- group.py ----------------------------------------------------------------------------------------
 
+def _str_atom(n):
+    if isinstance(n, ast.Constant) and isinstance(n.value, str):
+        return strlit(n.value)
+    if dotted(n) in ("func_name", "name"):
+        return dotted(n)
+    raise Untranslatable("naming: string atom " + ast.dump(n)[:60])
+
+
+def _str_cond(n):
+    """<atom> if <name> == <lit> else <atom>  -> Coq string term"""
+    t = n.test
+    if not (isinstance(t, ast.Compare) and len(t.ops) == 1 and isinstance(t.ops[0], ast.Eq)):
+        raise Untranslatable("naming: condition inside the f-string is not an equality")
+    return f"(if String.eqb {_str_atom(t.left)} {_str_atom(t.comparators[0])} then {_str_atom(n.body)} else {_str_atom(n.orelse)})"
+
+
 def naming(gr_tree, gr_src):
     f = py2v.find_method(gr_tree, "_BaseGroupedData", "_get_function_applied_columns")
     if [a.arg for a in f.args.args] != ["self", "func_name", "cols"]:
@@ -64,13 +80,26 @@ def naming(gr_tree, gr_src):
         raise Untranslatable("_get_function_applied_columns: `from sqlframe.base import functions as F` not found")
     body = _body(f)
     lowers = False
-    if len(body) == 2:
+    if len(body) >= 2 and isinstance(body[0], ast.Assign):
         s = body[0]
-        ok = (isinstance(s, ast.Assign) and dotted(s.targets[0]) == "func_name" and isinstance(s.value, ast.Call)
+        ok = (dotted(s.targets[0]) == "func_name" and isinstance(s.value, ast.Call)
               and dotted(s.value.func) == "func_name.lower" and not s.value.args)
         if not ok:
             raise Untranslatable("_get_function_applied_columns: first statement is not func_name = func_name.lower()")
         lowers = True
+        body = body[1:]
+    canon = "func_name"
+    if len(body) == 2:
+        # if func_name == <lit>: func_name = <lit>      (PySpark displays mean as avg)
+        c = body[0]
+        ok = (isinstance(c, ast.If) and not c.orelse and len(c.body) == 1 and isinstance(c.test, ast.Compare)
+              and len(c.test.ops) == 1 and isinstance(c.test.ops[0], ast.Eq) and dotted(c.test.left) == "func_name"
+              and isinstance(c.test.comparators[0], ast.Constant) and isinstance(c.test.comparators[0].value, str)
+              and isinstance(c.body[0], ast.Assign) and dotted(c.body[0].targets[0]) == "func_name"
+              and isinstance(c.body[0].value, ast.Constant) and isinstance(c.body[0].value.value, str))
+        if not ok:
+            raise Untranslatable("_get_function_applied_columns: statement before the return is not `if func_name == <lit>: func_name = <lit>`")
+        canon = f"(if String.eqb func_name {strlit(c.test.comparators[0].value)} then {strlit(c.body[0].value.value)} else func_name)"
         body = body[1:]
     if len(body) != 1 or not isinstance(body[0], ast.Return):
         raise Untranslatable("_get_function_applied_columns: body shape changed")
@@ -102,12 +131,15 @@ def naming(gr_tree, gr_src):
         elif isinstance(v, ast.FormattedValue) and v.conversion == -1 and v.format_spec is None \
                 and dotted(v.value) in ("func_name", "name"):
             parts.append(dotted(v.value))
+        elif isinstance(v, ast.FormattedValue) and v.conversion == -1 and v.format_spec is None \
+                and isinstance(v.value, ast.IfExp):
+            parts.append(_str_cond(v.value))
         else:
             raise Untranslatable("_get_function_applied_columns: f-string piece " + ast.dump(v)[:80])
     term = '""%string'
     for p in reversed(parts):
         term = f"(sapp {p} {term})"
-    return {"fmt": term, "lowers": lowers, "through": through, "hash": py2v.src_hash(f, gr_src),
+    return {"fmt": term, "canon": canon, "lowers": lowers, "through": through, "hash": py2v.src_hash(f, gr_src),
             "text": ast.get_source_segment(gr_src, name_e)}
 
 
@@ -210,6 +242,23 @@ def agg_facts(gr_tree, gr_src):
     if "exp.Group(grouping_sets=[exp.GroupingSets(expressions=all_grouping_sets)])" not in src.replace("\n", "") \
             or 'expression.set("group", group_by)' not in src:
         raise Untranslatable("agg: GROUP BY GROUPING SETS construction changed")
+    # HAVING COUNT(*) > 0 on the GROUPING SETS block (the repair of C06/cube-on-empty-input-grand-total-row)
+    hv = [n for n in ast.walk(f) if isinstance(n, ast.Call) and dotted(n.func) in ("expression.set", "expression.having")
+          and n.args and isinstance(n.args[0], ast.Constant) and n.args[0].value == "having"]
+    hv += [n for n in ast.walk(f) if isinstance(n, ast.Call) and isinstance(n.func, ast.Attribute) and n.func.attr == "having"]
+    if not hv:
+        out["cube_having"] = False
+    else:
+        want = ("exp.Having(this=exp.GT(this=exp.Count(this=exp.Star()),expression=exp.Literal.number(0)))")
+        ok = (len(hv) == 1 and dotted(hv[0].func) == "expression.set" and len(hv[0].args) == 2
+              and (ast.get_source_segment(gr_src, hv[0].args[1]) or "").replace(" ", "").replace("\n", "").replace(",)", ")") == want)
+        # it must sit in the grouping-sets branch, next to expression.set("group", group_by)
+        branch = [n for n in ast.walk(f) if isinstance(n, ast.If) and n.orelse and any(
+            isinstance(x, ast.Call) and dotted(x.func) == "exp.GroupingSets" for y in n.orelse for x in ast.walk(y))]
+        in_branch = len(branch) == 1 and any(x is hv[0] for y in branch[0].orelse for x in ast.walk(y))
+        if not (ok and in_branch):
+            raise Untranslatable("agg: a HAVING clause of another shape / in another place than the grouping-sets branch")
+        out["cube_having"] = True
     return out
 
 
@@ -508,7 +557,9 @@ def generate(repo: str):
          f"Definition dict_key_is_col : bool := {b(ag['dict_key_is_col'])}.",
          "Definition short_lit (m : shortfn) : string := match m with " +
          " | ".join(f"{SHORT[m]} => {strlit(lits[m])}" for m in SHORT) + " end.",
+         f"Definition canon_fn (func_name : string) : string := {nm['canon']}.",
          f"Definition name_fmt (func_name name : string) : string := {nm['fmt']}.",
+         f"Definition cube_having : bool := {b(ag['cube_having'])}.",
          f"Definition fmt_lowers_fn : bool := {b(nm['lowers'])}.",
          f"Definition through_sanitize : bool := {b(nm['through'])}.",
          f"Definition sanitize_on_duckdb : bool := {b(san_flag)}.",
@@ -523,16 +574,16 @@ def generate(repo: str):
          f"Definition k_cube_gen : option opk := {optk(k_cube)}.",
          f"Definition k_dfagg_gen : option opk := {optk(k_dfagg)}.",
          "Definition gen_gcfg : gcfg := mkGcfg wrap_needed_group init_wraps_group group_agg_kind k_groupBy_gen k_cube_gen "
-         "k_dfagg_gen agg_select_append.",
-         "Definition gen_ncfg : ncfg := mkNcfg short_lit name_fmt through_sanitize sanitize_on_duckdb fn_class count_star "
+         "k_dfagg_gen agg_select_append cube_having.",
+         "Definition gen_ncfg : ncfg := mkNcfg short_lit canon_fn name_fmt through_sanitize sanitize_on_duckdb fn_class count_star "
          "count_alias dict_key_is_col.",
          "Definition group_cfg : cfg := mkCfg wrap_needed_group kind_of init_wraps_group order_append limit_merge."]
     facts = [
         {"name": "name_fmt", "from": "group.py: _get_function_applied_columns f-string", "hash": nm["hash"], "text": nm["text"],
-         "lowers": nm["lowers"], "through_sanitize": nm["through"]},
+         "lowers": nm["lowers"], "through_sanitize": nm["through"], "canon": nm["canon"], "coq": nm["fmt"]},
         {"name": "agg_select_append / keys_first / group_uses_unaliased / sets_use_unaliased / dict_key_is_col",
          "from": "group.py: _BaseGroupedData.agg", "hash": ag["hash"],
-         "value": {k: ag[k] for k in ("append", "keys_first", "group_unaliased", "sets_unaliased", "dict_key_is_col")}},
+         "value": {k: ag[k] for k in ("append", "keys_first", "group_unaliased", "sets_unaliased", "dict_key_is_col", "cube_having")}},
         {"name": "short_lit", "from": "group.py: avg/mean/max/min/sum", "value": lits},
         {"name": "count shortcut", "from": "group.py: count", "value": {"arg": count_arg, "alias": count_alias}},
         {"name": "decorators", "from": "dataframe.py", "value": {"groupBy": k_groupby, "cube": k_cube, "agg": k_dfagg}},
